@@ -264,6 +264,40 @@ class Instance(object):
         self.line = line
 
 
+def implicit_exception(src, fname, decisions, args):
+    """Second run of the same call (same decisions) under sys.settrace: name of the first exception raised inside
+    the function or a function nested in it that is not one of the generator's explicit E0..E3, else None."""
+    import sys
+    world = pyrt.World(decisions)
+    glb = world.globals()
+    exec(compile(src, '<flow>', 'exec'), glb)
+    f = glb[fname]
+    codes = set()
+    todo = [f.__code__]
+    while todo:
+        c = todo.pop()
+        codes.add(c)
+        todo.extend(k for k in c.co_consts if hasattr(k, 'co_code'))
+    found = []
+
+    def tracer(frame, event, arg):
+        if frame.f_code not in codes:
+            return None
+        if event == 'exception' and arg[0].__name__ not in ('E0', 'E1', 'E2', 'E3', 'StopIteration'):
+            found.append(arg[0].__name__)
+        return tracer
+    old = sys.gettrace()
+    sys.settrace(tracer)
+    try:
+        try:
+            f(*args)
+        except BaseException:   # noqa
+            pass
+    finally:
+        sys.settrace(old)
+    return found[0] if found else None
+
+
 class Dyn(object):
     """events of one call; var events normalised to (op, var, owner) where owner is None for an access by
     the function's own code and the nested function's name for an access through a closure."""
@@ -280,6 +314,10 @@ class Dyn(object):
         self.kind, self.val = kind, val
         if kind == 'raise' and val not in ('E0', 'E1', 'E2', 'E3'):
             return          # implicit exception: outside the property
+        imp = implicit_exception(src, fi.fn.name, decisions, args)
+        if imp:
+            self.val = 'implicit %s caught by a handler' % imp
+            return          # an ordinary statement raised and a handler caught it: outside the property
         fname = f.__code__.co_name
         own = set(f.__code__.co_varnames) | set(f.__code__.co_cellvars)
         self.locals = own
